@@ -12,11 +12,11 @@ from harness.props.c03 import impl_candidates
 
 TARGETS = ["theories/Props/C01.vo", "theories/Proofs/GenEq_MetricTable.vo", "theories/Proofs/GenEq_MetricFormulas.vo",
            "theories/Proofs/GenEq_ResultCalc.vo", "theories/Proofs/GenEq_ZeroCases.vo", "theories/Proofs/GenEq_EvalTP.vo",
-           "theories/Proofs/GenEq_MatcherLoop.vo", "theories/Proofs/GenEq_EdgeCase.vo"]
+           "theories/Proofs/GenEq_MatcherLoop.vo", "theories/Proofs/GenEq_EdgeCase.vo", "theories/Proofs/GenEq_Crop.vo"]
 GENEQ = {"theories/Proofs/GenEq_MetricTable.vo": "MetricTable", "theories/Proofs/GenEq_MetricFormulas.vo": "MetricFormulas",
          "theories/Proofs/GenEq_ResultCalc.vo": "ResultCalc", "theories/Proofs/GenEq_ZeroCases.vo": "ZeroCases",
          "theories/Proofs/GenEq_EvalTP.vo": "EvalTP", "theories/Proofs/GenEq_MatcherLoop.vo": "MatcherLoop",
-         "theories/Proofs/GenEq_EdgeCase.vo": "EdgeCase"}
+         "theories/Proofs/GenEq_EdgeCase.vo": "EdgeCase", "theories/Proofs/GenEq_Crop.vo": "Crop"}
 ALLOWED_AXIOMS = []
 RULE = ("case = (label-map pair in 1-D/2-D/3-D incl. 0 instances, touching/split/merged/shifted/border instances; input type semantic/unmatched/"
         "matched; matching metric IOU/DSC/ASSD; thresholds incl. achieved scores; optional decision metric/threshold; backend default/cc3d/scipy); "
